@@ -8,6 +8,8 @@ TREE_CONFIGS = ["pm", "full", "optimal", "ark"]
 
 
 def check(run):
+    _v = run.violation
+    run.violation = lambda obj, no_input=False: _v(obj, no_input) if len(run.violations) < 4 else None
     run.level = "proof"
     run.prove(THEOREMS)
     rng = run.rng
@@ -33,18 +35,19 @@ def check(run):
         run.violation({"property": run.pid, "kind": "impl-vs-spec", "stream": "key-files", "ops": ["key_digest"],
                        "detail": "the configurations load different proving keys / constraint matrices: " + str(digests)})
     # ---- same history under every tree backend: roots, leaf counts, membership paths; then messages exchanged
-    nhist = 3 if quick else 20
+    nhist = 4 if quick else 30
     for h in range(nhist):
         secret, limit = rand_fr(rng), rng.choice([1, 100, 2**16])
         index = rng.choice([0, 1, 5, (1 << 19), (1 << 20) - 1])
         leaf = rlngen.rate_commitment(zkh, secret, limit)
         hist = []
+        val = lambda: rng.choice([0, 0, 1, rand_fr(rng), rand_fr(rng), rand_fr(rng)])      # the default (zero) leaf written explicitly is a leaf like any other
         for _ in range(rng.randint(2, 10)):
             r = rng.random()
             if r < 0.45:
-                hist.append(f"set {hex(rng.choice([0, 1, 2, 3, 7, 100, (1 << 20) - 2, rng.randrange(1 << 20)]))} {hex(rand_fr(rng))}")
+                hist.append(f"set {hex(rng.choice([0, 1, 2, 3, 7, 100, (1 << 20) - 2, rng.randrange(1 << 20)]))} {hex(val())}")
             elif r < 0.8:
-                hist.append(f"app {hex(rand_fr(rng))}")
+                hist.append(f"app {hex(val())}")
             else:
                 hist.append(f"del {hex(rng.choice([0, 1, 2, 3, 5]))}")
         hist.append(f"set {hex(index)} {hex(leaf)}")
